@@ -219,10 +219,10 @@ def check_disaggregate(run, ir, fk, ck, start_serial, n, nvar, miss, method):
     exp = {}
     for (P, v), val in cells.items():
         mem = members_of(fk, ck, P)
-        pos = {"flat": mem, "first": mem[:1], "middle": [mem[factor // 2]], "last": mem[-1:]}[method]
+        pos = {"flat": mem, "first": mem[:1], "middle": [mem[(factor if fk != "D" else len(mem)) // 2]], "last": mem[-1:]}[method]
         for s in pos:
             exp[(s, v)] = val
-    if not _compare(run, key, f"disaggregate:{method}", case, cellmap(y), exp, [path.condition()], names):
+    if not _compare(run, key, f"disaggregate:{method}" if fk != "D" else "disaggregate:to_daily", case, cellmap(y), exp, [path.condition()], names):
         return
     # round trips: aggregate(disaggregate(x)) == x with the matching method
     back = {"flat": ("mean", "first", "last", "min", "max"), "first": ("first",), "last": ("last",), "middle": ()}[method]
@@ -239,7 +239,7 @@ def check_disaggregate(run, ir, fk, ck, start_serial, n, nvar, miss, method):
             run.unknown(k2, "path exploration not exhausted")
             continue
         for p2, zc, _v in results:
-            if not _compare(run, k2, f"roundtrip:{method}/{am}", case2, zc, dict(cells), [p2.condition()], names):
+            if not _compare(run, k2, f"roundtrip:{method}/{am}" if fk != "D" else "roundtrip:to_daily", case2, zc, dict(cells), [p2.condition()], names):
                 break
 
 
@@ -381,7 +381,7 @@ def main(run):
                         "calendar membership oracle: own integer arithmetic (regular: serial // factor; daily: loop-free Gregorian calendar validated against datetime)"]
     run.functions_encoded.append("series.arip.{disaggregate_arip,disaggregate_arip_data,_create_basic_system_matrices,_DiffForm,_get_first_last_observations,_create_*}")
     run.stubs += ["numpy.linalg.solve in arip -> fresh symbols z with the contract F z = C", "_conversions.convert_diff without its float() coercion"]
-    run.outside += ["geometric_mean", "disaggregation to daily frequency", "arip 'rate' form (data-dependent rho makes the KKT matrix symbolic)", "weekly frequency", "min/max with missing members (unspecified)"]
+    run.outside += ["geometric_mean", "arip 'rate' form (data-dependent rho makes the KKT matrix symbolic)", "weekly frequency", "min/max with missing members (unspecified)"]
     n_cal = calstub.validate(step=97)
     run.extra["calendar_stub_validation"] = {"ordinals_compared_with_datetime": n_cal}
     proxy = npproxy.Proxy()
@@ -410,6 +410,15 @@ def main(run):
                         run.unknown(f"disaggregate:{ck}->{fk}:{method}", exc)
                     except Exception as exc:
                         run.error(f"disaggregate:{ck}->{fk}:{cs0}:{method}", exc)
+        # disaggregation to daily frequency: calendar membership (month lengths, leap years)
+        for (ck, cs0, n) in (("M", 2024 * 12 + 1, 2), ("Y", 2024, 1)) + ((("Q", 2023 * 4 + 0, 2), ("M", 2023 * 12 + 1, 1)) if run.tier == "thorough" else ()):
+            for method in ("flat", "first", "last"):
+                try:
+                    check_disaggregate(run, ir, "D", ck, cs0, n, 1, (), method)
+                except S.SymbolicBranchError as exc:
+                    run.unknown(f"disaggregate:{ck}->D:{method}", exc)
+                except Exception as exc:
+                    run.error(f"disaggregate:{ck}->D:{cs0}:{method}", exc)
     for (low_k, high_k) in (("Y", "Q"),) + ((("Q", "M"), ("Y", "H")) if run.tier == "thorough" else ()):
         for nlow in ((3,) if run.tier == "quick" else (2, 3, 4)):
             for aggregation in ("sum", "mean", "first", "last"):
